@@ -32,7 +32,14 @@ def gen_cases(rng, count, force=None, multi_eval=False, prefix="c"):
     cases = []
     for i in range(count):
         fspec, user = gen.gen_factors_spec(rng)
-        if multi_eval:
+        if multi_eval == "lm":
+            k, area, _ = gen.gen_params(rng)
+            evals = [(k, area, False), (k, area, True)]
+        elif multi_eval == "k":
+            k, area, lm = gen.gen_params(rng)
+            kk = rng.choice([0.25, 0.5, 0.75, rng.randint(1, 63) / 64.0])
+            evals = [(0.0, area, lm), (1.0, area, lm), (kk, area, lm)]
+        elif multi_eval:
             area = gen.gen_params(rng)[1]
             evals = [(0.0, area, False), (0.0, area, True), (1.0, area, False), (gen.gen_params(rng)[0], area, True)]
         else:
